@@ -71,4 +71,69 @@ theorem sorted_sXor (a b : List Nat) (ha : Sorted a) (hb : Sorted b) : Sorted (s
   unfold sXor
   exact sorted_sOr _ _ (sorted_sSub a b ha hb) (sorted_sSub b a hb ha)
 
+/-! ### folds -/
+
+theorem mem_foldl_sOr (l : List (List Nat)) : ∀ (a : List Nat) (x : Nat),
+    x ∈ l.foldl sOr a ↔ x ∈ a ∨ ∃ b ∈ l, x ∈ b := by
+  induction l with
+  | nil => intro a x; simp
+  | cons b l ih =>
+    intro a x
+    simp only [List.foldl_cons, ih, mem_sOr, List.mem_cons, exists_eq_or_imp]
+    exact or_assoc
+
+theorem sorted_foldl_sOr (l : List (List Nat)) : ∀ (a : List Nat), Sorted a → (∀ b ∈ l, Sorted b) →
+    Sorted (l.foldl sOr a) := by
+  induction l with
+  | nil => intro a ha _; exact ha
+  | cons b l ih =>
+    intro a ha hl
+    exact ih _ (sorted_sOr a b ha (hl b (List.mem_cons_self ..))) (fun b' hb' => hl b' (List.mem_cons_of_mem _ hb'))
+
+theorem sorted_foldl_sAnd (l : List (List Nat)) : ∀ (a : List Nat), Sorted a → (∀ b ∈ l, Sorted b) →
+    Sorted (l.foldl sAnd a) := by
+  induction l with
+  | nil => intro a ha _; exact ha
+  | cons b l ih =>
+    intro a ha hl
+    exact ih _ (sorted_sAnd a b ha (hl b (List.mem_cons_self ..))) (fun b' hb' => hl b' (List.mem_cons_of_mem _ hb'))
+
+theorem mem_foldl_sAnd (l : List (List Nat)) : ∀ (a : List Nat), Sorted a → (∀ b ∈ l, Sorted b) → ∀ x,
+    (x ∈ l.foldl sAnd a ↔ x ∈ a ∧ ∀ b ∈ l, x ∈ b) := by
+  induction l with
+  | nil => intro a _ _ x; simp
+  | cons b l ih =>
+    intro a ha hl x
+    have hb := hl b (List.mem_cons_self ..)
+    simp only [List.foldl_cons]
+    rw [ih _ (sorted_sAnd a b ha hb) (fun b' hb' => hl b' (List.mem_cons_of_mem _ hb')), mem_sAnd a b ha hb]
+    simp only [List.mem_cons, forall_eq_or_imp]
+    exact and_assoc
+
+theorem sOr_nil_left (a : List Nat) : sOr [] a = a := by
+  unfold sOr; rfl
+
+theorem sXor_nil_left (a : List Nat) : sXor [] a = a := by
+  unfold sXor
+  have h1 : sSub [] a = [] := by unfold sSub; rfl
+  have h2 : sSub a [] = a := by cases a <;> (unfold sSub; rfl)
+  rw [h1, h2, sOr_nil_left]
+
+/-- the `∩`-fold does not depend on the order of the operands (this is what makes the
+    sort-by-container-count of `try_multi_and_*` harmless, whatever the unstable sort does with ties) -/
+theorem foldl_sAnd_perm {a a' : List Nat} {l l' : List (List Nat)} (hp : (a :: l).Perm (a' :: l'))
+    (hs : ∀ b ∈ a :: l, Sorted b) : l.foldl sAnd a = l'.foldl sAnd a' := by
+  have hs' : ∀ b ∈ a' :: l', Sorted b := fun b hb => hs b (hp.mem_iff.2 hb)
+  have ha := hs a (List.mem_cons_self ..)
+  have ha' := hs' a' (List.mem_cons_self ..)
+  have hl : ∀ b ∈ l, Sorted b := fun b hb => hs b (List.mem_cons_of_mem _ hb)
+  have hl' : ∀ b ∈ l', Sorted b := fun b hb => hs' b (List.mem_cons_of_mem _ hb)
+  apply sorted_ext (sorted_foldl_sAnd l a ha hl) (sorted_foldl_sAnd l' a' ha' hl')
+  intro x
+  rw [mem_foldl_sAnd l a ha hl, mem_foldl_sAnd l' a' ha' hl']
+  have e1 : (x ∈ a ∧ ∀ b ∈ l, x ∈ b) ↔ ∀ b ∈ a :: l, x ∈ b := by simp
+  have e2 : (x ∈ a' ∧ ∀ b ∈ l', x ∈ b) ↔ ∀ b ∈ a' :: l', x ∈ b := by simp
+  rw [e1, e2]
+  exact ⟨fun h b hb => h b (hp.mem_iff.2 hb), fun h b hb => h b (hp.mem_iff.1 hb)⟩
+
 end Roaring.Multi.SpecL
